@@ -12,13 +12,16 @@ Conc_t == Conc_q \cup { <<R(0, 1), R(1, 1)>>, <<R(3, 1), R(3, 2)>>, <<R(1, 100),
 NC_t == NC_q \cup { <<R(1, 1000), R(1, 1)>>, <<R(110, 1), R(10, 1)>>, <<R(1, 3), R(2, 7)>> }
 Pts_t ==
     P1("water_density", TW_t) \cup P1("water_viscosity", TV_t) \cup P1("water_diffusion", TV_t)
+    \cup P1x("water_density", Grid(27315, 31315, 500) \cup {27314, 31316}, {Eta20})
+    \cup P1x("water_viscosity", Grid(27315, 37315, 1000) \cup {27314, 37316}, {Eta20, R(626, 625), R(1, 1)})
+    \cup AcidPtsX({10, 50, 90}, TA_t)
     \cup PermPts(TP_t, {1, 100, 1000, 2000}) \cup PermPts({34815, 37315, 47315, 62315}, {3000, 6000})
     \cup AcidPts({10, 20, 30, 40, 50, 60, 70, 80, 90, 5, 95, 0, 100}, TA_t)
     \cup InvPts({10, 20, 30, 40, 50, 60, 70, 80}, {27315, 28315, 29300, 29800, 31315, 32315})
     \cup SchumpePts(1..6, Conc_t)
-    \cup HenryPts({"henry_H"}, {1, 2, 3}, Grid(27315, 35315, 1000) \cup {29815}, {QZero})
-    \cup HenryPts({"henry_c", "henry_roundtrip"}, {1, 2, 3}, {27315, 29000, 29815, 31000, 35000}, {R(1, 1), R(21, 100), R(5, 1)})
-    \cup HenryPts({"henry_P"}, {1, 2, 3}, {27315, 29000, 29815, 31000, 35000}, {R(1, 1000), R(1, 4), R(1, 1000000)})
+    \cup HenryPts({"henry_H"}, {1, 2, 3, 4, 5}, Grid(27315, 35315, 1000) \cup {29815}, {QZero})
+    \cup HenryPts({"henry_c", "henry_roundtrip"}, {1, 2, 3, 4, 5}, {27315, 29000, 29815, 31000, 35000}, {R(1, 1), R(21, 100), R(5, 1)})
+    \cup HenryPts({"henry_P"}, {1, 2, 3, 4, 5}, {27315, 29000, 29815, 31000, 35000}, {R(1, 1000), R(1, 4), R(1, 1000000)})
     \cup NernstPts({27315, 29815, 31000, 35000}, {-3, -2, -1, 1, 2, 3}, NC_t)
     \cup MobPts({27315, 29815, 30000, 37315}, {-3, -2, -1, 1, 2, 3},
                 {R(3, 1000000000), R(93, 1000000000), R(1, 100000), R(23, 10000000)})
